@@ -12,5 +12,8 @@ if ! git -C "$wt" apply "/verif/seeded/$id/patch.diff"; then echo "RESULT $id $p
 VERIF_REPO="$wt" /verif/check "$prop" --tier "$tier" > "/tmp/mut-$id-$prop.log" 2>&1
 rc=$?
 grep -E "^(VIOLATION|KNOWN-FINDING|OK|FAIL|INCONCLUSIVE|BUILD-ERROR)" "/tmp/mut-$id-$prop.log" | head -8
-echo "RESULT $id $prop rc=$rc $( [ $rc = 1 ] && echo CAUGHT || echo MISSED )"
+verdict=$( [ $rc = 1 ] && echo CAUGHT || echo MISSED )
+classes=$(grep -E "^  class=" "/tmp/mut-$id-$prop.log" | sed -E 's/^  class=([^ ]+).*/\1/' | sort -u | tr '\n' ',' )
+echo "{\"id\":\"$id\",\"prop\":\"$prop\",\"tier\":\"$tier\",\"rc\":$rc,\"verdict\":\"$verdict\",\"classes\":\"$classes\",\"verif_commit\":\"$(git -C /verif rev-parse --short HEAD)\",\"repo_head\":\"$(git -C /repo rev-parse --short HEAD)\"}" >> /verif/seeded/results.jsonl
+echo "RESULT $id $prop rc=$rc $verdict $classes"
 exit 0
